@@ -38,9 +38,10 @@ RULE = (
     "(queries, percent-encoding, non-default ports, explicit default port in Host, rare punycode host and IPv6 literal) x version (1.0, 1.1, 2.0, 3) x header "
     "multisets (duplicates, mixed case, empty and non-ASCII UTF-8 values, rare Latin-1 bytes) x request body (none/text/form/binary) x "
     "response status x body kind (empty, text in utf-8/latin-1/shift_jis/utf-16/undeclared, json, html, binary) x content coding "
-    "(identity, gzip, deflate, br) on either side; distinct = per-flow feature tuple (method class, version, body kinds, charsets, "
-    "codings, header features, url features); non-trivial = the flow has a response and at least one of: body, duplicate header, "
-    "non-ASCII header, content coding, non-1.1 version, query"
+    "(identity, gzip, deflate, br) on either side; distinct = (one / several flows, coarse feature tuple of the first flow [method "
+    "class, version, request body kind and coding, response body kind, charset, coding, has Content-Length, rare-feature flags]); "
+    "non-trivial = some flow has a response and at least one of: body, duplicate header, non-ASCII header, content coding, non-1.1 "
+    "version, query"
 )
 ASSUMPTIONS = [
     "the Host header / :authority of generated requests agrees with the request's host and port",
@@ -426,27 +427,33 @@ def run(ctx):
 
 
 def sig_of(fe):
-    """Compact per-flow feature string."""
+    """Coarse per-flow feature tuple."""
     flags = "".join(
         c
-        for c, k in (("6", "ipv6"), ("x", "punycode"), ("p", "port"), ("d", "explicit_default_port"), ("q", "query"), ("D", "req_dup"), ("L", "req_latin1"), ("N", "req_nonascii"), ("l", "resp_has_cl"), ("E", "resp_dup"), ("M", "resp_latin1"), ("O", "resp_nonascii"))
+        for c, k in (("6", "ipv6"), ("x", "punycode"), ("d", "explicit_default_port"), ("L", "req_latin1"), ("M", "resp_latin1"))
         if fe.get(k)
     )
-    return "|".join(
-        str(x)
-        for x in (fe["method"], fe["version"], fe["req_body"], fe["req_charset"], fe["req_coding"], fe.get("resp"), fe.get("status", 0) // 100, fe.get("resp_body"), fe.get("resp_charset"), fe.get("resp_coding"), flags)
+    if fe.get("req_dup") or fe.get("resp_dup"):
+        flags += "D"
+    if fe.get("req_nonascii") or fe.get("resp_nonascii"):
+        flags += "N"
+    return (
+        fe["method"],
+        fe["version"],
+        fe["req_body"],
+        fe["req_coding"],
+        fe.get("resp"),
+        fe.get("resp_body"),
+        fe.get("resp_charset"),
+        fe.get("resp_coding"),
+        bool(fe.get("resp_has_cl")),
+        flags,
     )
 
 
 def case_sig(feats_all):
-    """Coarse: number of flows, full feature string of the first flow, and which versions / codings / body kinds the rest add."""
-    rest = feats_all[1:]
-    return (
-        len(feats_all),
-        sig_of(feats_all[0]),
-        tuple(sorted({fe["version"] for fe in rest})),
-        tuple(sorted({str(fe.get("resp_coding")) for fe in rest} | {str(fe.get("req_coding")) for fe in rest})),
-    )
+    """Number of flows (1 / several) and the coarse feature tuple of the first flow."""
+    return (min(len(feats_all), 2), sig_of(feats_all[0]))
 
 
 def nontrivial(fe):
